@@ -58,6 +58,7 @@ class Verifier(Engine):
             for txt, ast in c.assumes:
                 st.assume(self.ev_bool(ast, env))
                 self.assumptions.add('%s: assume %s' % (name, txt))
+        self.run_ghost_event(fr, st, 'at entry')
         entry = st.copy()
         fr.entry = entry
         fr.entry_env = {'st': entry, 'old': None, 'vars': {n: v for n, v in fr.names.items()}, 'fr': None}
@@ -83,13 +84,17 @@ class Verifier(Engine):
     def at_return(self, fr, st, vals, c, fn):
         self.path_ends.append(('return', list(st.trace)))
         if c is None: return
+        if c.ghost:
+            env0 = self.result_env(fr, st, vals, fn)
+            for ev, stmts, txt in c.ghost:
+                if ev == 'at return': self.run_ghost(stmts, env0, fr, st, txt)
         env = self.result_env(fr, st, vals, fn)
         for n, (txt, ast) in enumerate(c.ensures):
             parts = self.split_conj(ast)
             for j, a in enumerate(parts):
                 g = self.ev_bool(a, env)
                 nm = '%d' % (n + 1) if len(parts) == 1 else '%d.%d' % (n + 1, j + 1)
-                self.oblige(st, None, 'post', nm, g, None, text=txt)
+                self.oblige(st, None, 'post', nm, g, None, text=cparse.show(a) if len(parts) > 1 else txt)
         self.frame_check(fr, st, c, fn)
         o = Obl('%s/smoke/return' % self.cur, 'smoke', list(st.pc), BoolVal(False), list(st.trace), '', 'some return is reachable')
         o.expect = 'sat'
@@ -107,7 +112,29 @@ class Verifier(Engine):
                 if t.strip():
                     self.oblige(st, None, 'onpanic', '%d' % (n + 1), self.ev_bool(cparse.parse_expr(t), env), None, text=t)
 
+    def subst(self, ast, m):
+        if not isinstance(ast, tuple): 
+            if isinstance(ast, list): return [self.subst(x, m) for x in ast]
+            return ast
+        if ast[0] == 'id' and ast[1] in m: return m[ast[1]]
+        if ast[0] == 'quant':
+            m2 = {k: v for k, v in m.items() if k not in [n for n, _ in ast[2]]}
+            return ('quant', ast[1], ast[2], [[self.subst(t, m2) for t in g] for g in ast[3]], self.subst(ast[4], m2))
+        return tuple(self.subst(x, m) if isinstance(x, (tuple, list)) else x for x in ast)
+
+    def expand_pred(self, ast):
+        if ast[0] == 'call' and ast[1][0] == 'id' and ast[1][1] in self.c.pures:
+            ps, rt, body, txt = self.c.pures[ast[1][1]]
+            if rt == 'bool' and body[0] == 'bin' and body[1] == '&&' and len(ps) == len(ast[2]):
+                if all(a[0] in ('id', 'num', 'field', 'nil') for a in ast[2]):
+                    return self.subst(body, {pn: a for (pn, pt), a in zip(ps, ast[2])})
+        return ast
+
     def split_conj(self, ast):
+        ast = self.expand_pred(ast)
+        if ast[0] == 'bin' and ast[1] == '==>':
+            rhs = self.expand_pred(ast[3])
+            if rhs is not ast[3]: ast = ('bin', '==>', ast[2], rhs)
         if ast[0] == 'bin' and ast[1] == '&&':
             return self.split_conj(ast[2]) + self.split_conj(ast[3])
         if ast[0] == 'bin' and ast[1] == '==>' and ast[3][0] == 'bin' and ast[3][1] == '&&':
@@ -149,25 +176,44 @@ class Verifier(Engine):
             self.oblige(st, None, 'frame', key, And(*goals), None, text='writes to %s stay within modifies' % key)
 
     # ------------------------------------------------------------------ solving
-    def solve_all(self, timeout_ms=10000, seed=0, race=True):
+    def solve_all(self, timeout_ms=10000, seed=0, race=True, jobs=None):
+        """discharge all obligations; forked workers share the z3 terms by copy-on-write"""
+        global _WORK
         t0 = time.time()
-        for o in self.obls:
-            self.solve(o, timeout_ms, seed, race)
+        jobs = jobs or int(os.environ.get('GOCV_JOBS', '16'))
+        n = len(self.obls)
+        if jobs <= 1 or n < 8:
+            failed = set()
+            for o in self.obls:
+                if o.name in failed and o.expect == 'unsat':
+                    o.result = 'skipped'; o.backend = 'skipped (an earlier path instance of this obligation already failed)'
+                    continue
+                self.solve(o, timeout_ms, seed, race)
+                if o.expect == 'unsat' and o.result != 'unsat': failed.add(o.name)
+            return time.time() - t0
+        import multiprocessing as mp
+        _WORK = (self, timeout_ms, seed, race)
+        ctx = mp.get_context('fork')
+        with ctx.Pool(min(jobs, n)) as pool:
+            for i, res, tm, be, model in pool.imap_unordered(_solve_one, range(n), chunksize=4):
+                o = self.obls[i]; o.result, o.time, o.backend, o.model = res, tm, be, model
         return time.time() - t0
 
     def solve(self, o, timeout_ms, seed, race=True):
         t = time.time()
         s = z3.Solver()
-        s.set('timeout', timeout_ms)
+        s.set('timeout', timeout_ms if o.expect == 'unsat' else min(timeout_ms, 3000))
         if seed: s.set('random_seed', seed % 1000)
-        for f in o.pc: s.add(f)
+        for f in o.pc:
+            if o.kind == 'smoke' and self.has_quant(f): continue
+            s.add(f)
         s.add(Not(o.goal))
         r = s.check()
         o.backend = 'z3-5.1.0(api)'
         res = str(r)
         if r == z3.sat and o.expect == 'unsat':
             try:
-                o.model = s.model()
+                o.model = self.model_summary(s.model(), o)
             except Exception:
                 o.model = None
         if r == z3.unknown and race:
@@ -178,6 +224,27 @@ class Verifier(Engine):
         o.result = res
         o.time = time.time() - t
         return res
+
+
+    def model_summary(self, m, o):
+        """plain-data summary of a counterexample model (values of the symbolic inputs)"""
+        out = {}
+        for d in m.decls():
+            nm = d.name()
+            if d.arity() == 0 and (nm.startswith('p.') or nm.startswith('fv.')):
+                try: out[nm] = str(m[d])
+                except Exception: pass
+        return out
+
+
+_WORK = None
+
+
+def _solve_one(i):
+    v, timeout_ms, seed, race = _WORK
+    o = v.obls[i]
+    v.solve(o, timeout_ms, seed, race)
+    return i, o.result, o.time, o.backend, o.model
 
 
 def race_solvers(smt, timeout_ms):
